@@ -196,6 +196,12 @@ def handle : List String → String
       let n : Ident := ⟨decStr name, decBool quoted⟩
       let impl := if statusSqlWellFormed k n then encOptStr (ddlStatus k n) else "raise"
       s!"impl={impl}\tspec={encOptStr (Spec.ddlStatus k n (decBool noop))}\tfinding={(ddlFinding k n (decBool noop)).getD "-"}"
+  | ["ddlident", kind, lit] =>
+    match parseKind kind with
+    | none => "bad-op"
+    | some k =>
+      let l := decStr lit
+      s!"impl={encOptStr (ddlStatus k (identifierArg l))}\tspec={encOptStr (Spec.ddlStatus k (Spec.identifierName l) false)}\tfinding={(ddlFindingIdentifier k l).getD "-"}"
   | _ => "bad-op"
 
 end Fs.Drv.Dml
